@@ -169,6 +169,38 @@ func c03Suffix(s *c01Setup, nodes []*dsNode, suffix string, r *vr.Report) (key, 
 		// gossip closure
 		for changed := true; changed; {
 			changed = false
+			if suffix == "pester" || suffix == "pester-commit" {
+				// the faulty validator keeps proposing: whenever a correct node is in a round it is the proposer of and
+				// holds no proposal for that round, it (re)sends its proposal — at any moment, also between gossip passes
+				for _, n := range nodes {
+					if n.halted != "" || n.cs.Height != w.Height || n.cs.Proposal != nil || w.proposerOf(n.cs.Round) != s.byz {
+						continue
+					}
+					if suffix == "pester-commit" && n.cs.Step != 8 /* RoundStepCommit: a node that knows the decision and waits for the block */ {
+						continue
+					}
+					name := fmt.Sprintf("X1r%d", n.cs.Round)
+					w.mtx.Lock()
+					_, have := w.blocks[name]
+					w.mtx.Unlock()
+					var pm *dsMsg
+					if !have {
+						id, _ := w.byzProposal(s.byz, n.cs.Round, -1, []types.Tx{types.Tx("x1")}, false, name)
+						pm = w.msg(id)
+					} else {
+						blk := w.blocks[name]
+						ps := blk.MakePartSet(types.BlockPartSizeBytes)
+						pm = w.msg(w.signedProposal(s.byz, n.cs.Round, -1, types.BlockID{Hash: blk.Hash(), PartSetHeader: ps.Header()}, ps))
+					}
+					mi := msgInfo{Msg: pm.mis[0].Msg, PeerID: dsPeerID(s.byz)} // the proposal message alone
+					n.nEvents++
+					n.guarded(func() { n.cs.handleMsg(mi) })
+					n.afterStep()
+					if n.cs.Proposal != nil {
+						progress = true
+					}
+				}
+			}
 			for i, src := range nodes {
 				held := c03HeldBy(src)
 				for j, dst := range nodes {
@@ -335,7 +367,7 @@ func TestVerifC03(t *testing.T) {
 	r := vr.Start("C03", "termination", 140*time.Second, 22*time.Minute)
 	defer r.Finish()
 	r.Rule = "prefix = every distinct tuple of local states of the 3 correct nodes visited by the C01 exploration (all executions with <= k deviations, per Byzantine configuration); " +
-		"suffix = synchronous driver with idealised gossip, for each Byzantine suffix behaviour {silent, echo}; a case is one (prefix tuple, suffix behaviour); " +
+		"suffix = synchronous driver with idealised gossip, for each Byzantine suffix behaviour {silent, echo, pester (keeps re-sending its proposal for the node's round), pester-commit (does so only to nodes that wait for a decided block)}; a case is one (prefix tuple, suffix behaviour); " +
 		"every case is distinct; non-trivial = the prefix is not the initial state"
 	r.Assume("idealised gossip as the property states it (everything a correct node holds reaches every other correct node, +2/3 majority claims included), not the reactor's vote-picking rules")
 	r.Assume("liveness is decided bounded: every correct node must decide within (round at synchrony point) + n + 2 rounds, n = 4")
@@ -412,7 +444,7 @@ func TestVerifC03(t *testing.T) {
 						cs.Hists = append(cs.Hists, h)
 						cs.Desc = append(cs.Desc, s.e.describe(l.hist))
 					}
-					for _, sfx := range []string{"silent", "echo"} {
+					for _, sfx := range []string{"silent", "echo", "pester", "pester-commit"} {
 						cs.Suffix = sfx
 						r.Eval()
 						r.NTCount(1)
@@ -429,7 +461,7 @@ func TestVerifC03(t *testing.T) {
 						}
 					}
 					if k%5000 == 1 {
-						r.Sample(map[string]interface{}{"config": c, "local_histories": cs.Desc, "suffixes": []string{"silent", "echo"}})
+						r.Sample(map[string]interface{}{"config": c, "local_histories": cs.Desc, "suffixes": []string{"silent", "echo", "pester", "pester-commit"}})
 					}
 				}
 			}()
